@@ -48,6 +48,23 @@ pub fn gen_case(rng: &mut Rng, idx: usize, thorough: bool) -> Value {
         r.sample(rng, crate::rx::ALPHA, &mut s);
         return json!({"rx": rx_to_json(&r), "grammar": {"regex": r.to_regex()}, "texts": [vocab::hex(s.as_bytes())], "seed": rng.next() % 1_000_000_000, "steps": steps});
     }
+    if idx % 6 == 4 {
+        // a lexeme with an optional continuation (bounded repetition, optional last byte, enum values sharing a
+        // prefix) followed by text that starts with a byte above or below the continuation byte: the lexer's
+        // next-byte hint is then one of several viable bytes, in either order
+        let bytes = ['a', 'b', 'x', 'z', '1', '2', ',', '~', '!'];
+        let c = *rng.pick(&bytes);
+        let d = *rng.pick(&bytes);
+        let e = *rng.pick(&bytes);
+        let lit: String = format!("{e}{}", ["", "k", "99"][rng.below(3)]);
+        let (g, texts): (Value, Vec<String>) = match rng.below(4) {
+            0 => { let k = 2 + rng.below(3); (json!({"lark": format!("start: A B\nA: /{c}{{1,{k}}}/\nB: \"{lit}\"\n")}), vec![format!("{c}{c}{lit}"), format!("{c}{lit}")]) }
+            1 => (json!({"lark": format!("start: A B\nA: /{c}{d}?/\nB: \"{lit}\"\n")}), vec![format!("{c}{d}{lit}"), format!("{c}{lit}")]),
+            2 => { let n = 1 + rng.below(9); (json!({"json_schema": {"type":"object","properties":{"a":{"enum":[n, n * 10 + rng.below(10)]},"b":{"const":2}},"required":["a","b"],"additionalProperties":false}}), vec![format!("{{\"a\":{n},\"b\":2}}"), format!("{{\"a\":{}", n * 10)]) }
+            _ => (json!({"lark": format!("start: A+ B\nA: \"{c}\" | \"{c}{d}\"\nB: \"{lit}\"\n")}), vec![format!("{c}{d}{c}{lit}"), format!("{c}{lit}")]),
+        };
+        return json!({"grammar": g, "texts": texts.iter().map(|s| vocab::hex(s.as_bytes())).collect::<Vec<_>>(), "seed": rng.next() % 1_000_000_000, "steps": steps});
+    }
     let fams = families();
     let (g, t) = &fams[(idx / 3 * 2 + idx % 3) % fams.len()];
     json!({"grammar": g.to_json(), "texts": t.iter().map(|s| vocab::hex(s.as_bytes())).collect::<Vec<_>>(), "seed": rng.next() % 1_000_000_000, "steps": steps})
